@@ -146,10 +146,18 @@ MultiOK(res, qs, k, thr, filt, kind) ==
                 Abs(s * a[2] - a[1]) <= Eps * Cardinality(Q) + a[2]
       allSure == UNION {sure[i] : i \in Pos}
       allMay  == UNION {may[i] : i \in Pos}
+      \* an id left out of a truncated answer is not better than the last one returned (for some admissible membership of it)
+      notBetter(id, last) ==
+        LET must == {i \in Pos : id \in sure[i]}  can == {i \in Pos : id \in may[i]} IN
+        \E Q \in SUBSET can :
+             /\ Q # {} /\ must \subseteq Q
+             /\ LET a == AggOf(kind, {<<i, Dist[qs[i]][rowOf(id).v]>> : i \in Q}) IN
+                a[1] >= (last - Eps * Cardinality(Q) - 1) * a[2]
   IN /\ NoDupIds(res)
      /\ \A j \in 1..n : res[j][1] \in LiveIds /\ okScore(res[j][1], res[j][2])
      /\ AscendingEps(res, Eps * Len(qs) + 1)
      /\ (k > 0 => n <= k)
      /\ n <= Cardinality(allMay)
      /\ Exhaustive => n >= SanK(k, Cardinality(allSure))
+     /\ (Exhaustive /\ n > 0) => \A id \in allSure \ IdsOf(res) : notBetter(id, res[n][2])
 =============================================================================
